@@ -1,5 +1,1317 @@
-use crate::Ctx;
+//! C07 - Huffman codec is lossless, bounded and agrees with the reference.
+//!
+//! Oracles:
+//!  * round trip `decompress(compress(x)) == x` for the compact and the reference-compatible form,
+//!    into `Vec`s, `ArrayVec`s and slices of chosen capacities inside canary windows;
+//!  * `compressed_len` / `compressed_len_bug` equal the produced lengths;
+//!  * an independent bit-level model written from doc/huffman.md (code table = the appendix of
+//!    that document for the built-in table, `Huffman::repr()` - validated to be a complete
+//!    prefix-free code - for generated tables);
+//!  * differential against the bundled C++ implementation (`libtw2_huffman_reference`):
+//!    `compress_bug` byte-identical; reference decoder accepts => ours returns the same bytes
+//!    for the same capacity (one direction only, as the property states);
+//!  * decoder on arbitrary input: no panic, nothing written outside the window, an `Ok` result is
+//!    exactly the unique decoding of the zero-extended bit stream up to the EOF symbol and fits
+//!    the capacity (so overflow and garbage can only come back as `Err`).
+//!
+//! The `pub fn check_*` functions take plain byte slices so that a fuzz target can call them.
 
-pub fn run(_ctx: &Ctx) {
-    // not built yet
+use crate::util::{hex, Canary};
+use crate::{ensure, ensure_eq, guard_s, pick, Ctx, Outcome, PResult};
+use arrayvec::ArrayVec;
+use libtw2_huffman::{DecompressionError, Huffman};
+use libtw2_huffman_reference::Huffman as RefHuffman;
+use proptest::prelude::*;
+use serde::{Deserialize, Serialize};
+use serde_json::json;
+use std::sync::OnceLock;
+
+const FREQUENCIES_TXT: &str = include_str!("/repo/huffman/data/frequencies");
+const DOC_TXT: &str = include_str!("/repo/doc/huffman.md");
+
+pub const EOF: usize = 256;
+pub const NUM_SYMBOLS: usize = 257;
+/// The library's documented representation limit (24-bit codes, 24-entry traversal stack).
+pub const MAX_DEPTH: u32 = 24;
+
+// ---------------------------------------------------------------------------
+// Tables and the bit-level model
+
+#[derive(Clone, Copy, Debug, PartialEq, Eq)]
+pub struct Code {
+    /// bit i (LSB first) is the i-th bit of the code in stream order
+    pub bits: u32,
+    pub len: u32,
+}
+
+const MISSING: i32 = i32::MIN;
+
+/// Compares two byte strings; renders them only on failure (the inputs reach 8 KiB).
+macro_rules! ensure_bytes {
+    ($a:expr, $b:expr, $($arg:tt)*) => {{
+        let (a, b): (&[u8], &[u8]) = (&$a[..], &$b[..]);
+        if a != b {
+            let at = a.iter().zip(b.iter()).position(|(x, y)| x != y).unwrap_or(a.len().min(b.len()));
+            let from = at.saturating_sub(8);
+            return Err(format!(
+                "{}: lengths {} / {}, first difference at byte {}: left[{}..]=[{}] right[{}..]=[{}]",
+                format!($($arg)*),
+                a.len(),
+                b.len(),
+                at,
+                from,
+                hex_short(&a[from.min(a.len())..]),
+                from,
+                hex_short(&b[from.min(b.len())..])
+            ));
+        }
+    }};
+}
+
+pub struct Table {
+    pub lib: Huffman,
+    pub reference: Option<RefHuffman>,
+    pub codes: Vec<Code>,
+    /// node 0 is the root; child >= 0: inner node index, child < 0: leaf -(symbol + 1)
+    trie: Vec<[i32; 2]>,
+    pub builtin: bool,
+}
+
+fn codes_of(h: &Huffman) -> Result<Vec<Code>, String> {
+    let mut out = Vec::with_capacity(NUM_SYMBOLS);
+    for (i, r) in h.repr().into_iter().enumerate() {
+        let len = r.num_bits();
+        ensure!(
+            (1..=MAX_DEPTH).contains(&len),
+            "symbol {} has a code of {} bits (expected 1..=24)",
+            i,
+            len
+        );
+        let mut bits = 0u32;
+        for k in 0..len {
+            if r.bit(k) {
+                bits |= 1 << k;
+            }
+        }
+        out.push(Code { bits, len });
+    }
+    ensure_eq!(out.len(), NUM_SYMBOLS, "number of symbols in Huffman::repr()");
+    Ok(out)
+}
+
+/// Builds the decoding trie; fails unless the codes form a complete prefix-free code.
+fn build_trie(codes: &[Code]) -> Result<Vec<[i32; 2]>, String> {
+    let mut trie: Vec<[i32; 2]> = vec![[MISSING; 2]];
+    for (sym, c) in codes.iter().enumerate() {
+        let mut node = 0usize;
+        for k in 0..c.len {
+            let bit = ((c.bits >> k) & 1) as usize;
+            let last = k + 1 == c.len;
+            let child = trie[node][bit];
+            if last {
+                ensure!(
+                    child == MISSING,
+                    "code of symbol {} is a prefix of / equal to another symbol's code",
+                    sym
+                );
+                trie[node][bit] = -(sym as i32 + 1);
+            } else if child == MISSING {
+                trie.push([MISSING; 2]);
+                let idx = trie.len() - 1;
+                trie[node][bit] = idx as i32;
+                node = idx;
+            } else {
+                ensure!(child >= 0, "another symbol's code is a prefix of the code of symbol {}", sym);
+                node = child as usize;
+            }
+        }
+    }
+    for (i, n) in trie.iter().enumerate() {
+        ensure!(
+            n[0] != MISSING && n[1] != MISSING,
+            "code is not complete: trie node {} lacks a child (some bit strings decode to nothing)",
+            i
+        );
+    }
+    Ok(trie)
+}
+
+impl Table {
+    pub fn new(lib: Huffman, reference: Option<RefHuffman>, builtin: bool) -> Result<Table, String> {
+        let codes = codes_of(&lib)?;
+        let trie = build_trie(&codes)?;
+        Ok(Table {
+            lib,
+            reference,
+            codes,
+            trie,
+            builtin,
+        })
+    }
+    pub fn max_len(&self) -> u32 {
+        self.codes.iter().map(|c| c.len).max().unwrap_or(0)
+    }
+}
+
+pub fn builtin_frequencies() -> &'static [u32] {
+    static F: OnceLock<Vec<u32>> = OnceLock::new();
+    F.get_or_init(|| {
+        let v: Vec<u32> = FREQUENCIES_TXT
+            .lines()
+            .filter(|l| !l.trim().is_empty())
+            .map(|l| l.trim().parse().expect("huffman/data/frequencies: not a number"))
+            .collect();
+        assert_eq!(v.len(), 256, "huffman/data/frequencies must hold 256 lines");
+        v
+    })
+}
+
+/// The code table printed in the appendix of doc/huffman.md, index 256 = EOF.
+pub fn doc_codes() -> &'static [Code] {
+    static D: OnceLock<Vec<Code>> = OnceLock::new();
+    D.get_or_init(|| {
+        let mut out: Vec<Option<Code>> = vec![None; NUM_SYMBOLS];
+        let appendix = DOC_TXT.split("Appendix").nth(1).expect("doc/huffman.md has no Appendix");
+        for line in appendix.lines() {
+            let Some((name, code)) = line.trim().split_once(": ") else {
+                continue;
+            };
+            let sym = if name == "EOF" {
+                EOF
+            } else if name.len() == 2 {
+                match usize::from_str_radix(name, 16) {
+                    Ok(s) => s,
+                    Err(_) => continue,
+                }
+            } else {
+                continue;
+            };
+            if code.is_empty() || !code.bytes().all(|b| b == b'0' || b == b'1') {
+                continue;
+            }
+            let mut bits = 0u32;
+            for (k, b) in code.bytes().enumerate() {
+                if b == b'1' {
+                    bits |= 1 << k;
+                }
+            }
+            out[sym] = Some(Code {
+                bits,
+                len: code.len() as u32,
+            });
+        }
+        out.into_iter()
+            .enumerate()
+            .map(|(i, c)| c.unwrap_or_else(|| panic!("doc/huffman.md appendix lacks symbol {}", i)))
+            .collect()
+    })
+}
+
+/// The built-in table (`instances::TEEWORLDS`) with the C++ reference initialised from
+/// huffman/data/frequencies.
+pub fn builtin() -> &'static Table {
+    static T: OnceLock<Table> = OnceLock::new();
+    T.get_or_init(|| {
+        let reference = RefHuffman::from_frequencies(builtin_frequencies());
+        Table::new(libtw2_huffman::instances::TEEWORLDS, Some(reference), true)
+            .expect("built-in table is not a complete prefix code")
+    })
+}
+
+/// Code lengths produced by "repeatedly merge the two rarest nodes" with the reference's tie
+/// breaking (stable descending sort, the merged node goes to the end of the list). Used as the
+/// generator precondition (depth <= 24) - index 256 is EOF (frequency 1).
+pub fn model_code_lengths(freqs: &[u32]) -> Vec<u32> {
+    assert_eq!(freqs.len(), 256);
+    let mut list: Vec<(u64, usize)> = freqs.iter().map(|&f| f as u64).zip(0..).collect();
+    list.push((1, EOF));
+    let mut parent = vec![usize::MAX; 2 * NUM_SYMBOLS - 1];
+    let mut next = NUM_SYMBOLS;
+    while list.len() > 1 {
+        list.sort_by(|a, b| b.0.cmp(&a.0));
+        let a = list.pop().unwrap();
+        let b = list.pop().unwrap();
+        parent[a.1] = next;
+        parent[b.1] = next;
+        list.push(((a.0 + b.0).min(u32::MAX as u64), next));
+        next += 1;
+    }
+    (0..NUM_SYMBOLS)
+        .map(|s| {
+            let (mut d, mut n) = (0, s);
+            while parent[n] != usize::MAX {
+                n = parent[n];
+                d += 1;
+            }
+            d
+        })
+        .collect()
+}
+
+pub fn model_bit_len(t: &Table, x: &[u8]) -> usize {
+    x.iter().map(|&b| t.codes[b as usize].len as usize).sum::<usize>() + t.codes[EOF].len as usize
+}
+
+/// doc/huffman.md: substitute, append EOF, pad with zero bits, first bit = least significant.
+pub fn model_encode(t: &Table, x: &[u8]) -> Vec<u8> {
+    let mut out = Vec::with_capacity(model_bit_len(t, x) / 8 + 1);
+    let (mut acc, mut n) = (0u64, 0u32);
+    for s in x.iter().map(|&b| b as usize).chain(Some(EOF)) {
+        let c = t.codes[s];
+        acc |= (c.bits as u64) << n;
+        n += c.len;
+        while n >= 8 {
+            out.push(acc as u8);
+            acc >>= 8;
+            n -= 8;
+        }
+    }
+    if n > 0 {
+        out.push(acc as u8);
+    }
+    out
+}
+
+#[derive(Debug, Clone)]
+pub struct ModelDecode {
+    /// symbols decoded before EOF (or before giving up)
+    pub bytes: Vec<u8>,
+    /// EOF symbol reached
+    pub eof: bool,
+    /// bits of the zero-extended stream consumed, including the EOF code
+    pub bits_used: usize,
+}
+
+/// Decodes the zero-extended bit stream until EOF; gives up (eof = false) once more than
+/// `limit` bytes were produced.
+pub fn model_decode(t: &Table, input: &[u8], limit: usize) -> ModelDecode {
+    let mut bytes = Vec::new();
+    let mut node = 0usize;
+    let mut pos = 0usize;
+    let total_bits = input.len() * 8;
+    loop {
+        let bit = if pos < total_bits {
+            ((input[pos >> 3] >> (pos & 7)) & 1) as usize
+        } else {
+            0
+        };
+        pos += 1;
+        let child = t.trie[node][bit];
+        if child >= 0 {
+            node = child as usize;
+            continue;
+        }
+        let sym = (-(child + 1)) as usize;
+        if sym == EOF {
+            return ModelDecode {
+                bytes,
+                eof: true,
+                bits_used: pos,
+            };
+        }
+        bytes.push(sym as u8);
+        node = 0;
+        if bytes.len() > limit {
+            return ModelDecode {
+                bytes,
+                eof: false,
+                bits_used: pos,
+            };
+        }
+    }
+}
+
+// ---------------------------------------------------------------------------
+// Observing the library
+
+#[derive(Debug, Clone, Copy, PartialEq, Eq)]
+pub enum ErrKind {
+    Capacity,
+    Invalid,
+}
+
+fn slice_start(can: &Canary) -> usize {
+    can.range().0
+}
+
+/// `compress` / `compress_bug` into a slice of exactly `cap` bytes inside a canary window.
+fn compress_slice(t: &Table, x: &[u8], bug: bool, cap: usize) -> Result<Result<Vec<u8>, ()>, String> {
+    let what = if bug { "compress_bug" } else { "compress" };
+    let mut can = Canary::new(cap);
+    let start = slice_start(&can);
+    let r = {
+        let win = can.window();
+        let r = if bug { t.lib.compress_bug(x, win) } else { t.lib.compress(x, win) };
+        r.map(|s| (s.as_ptr() as usize, s.to_vec()))
+    };
+    ensure!(
+        can.intact(),
+        "{} of {} bytes into a {}-byte slice wrote outside the slice",
+        what,
+        x.len(),
+        cap
+    );
+    match r {
+        Ok((p, v)) => {
+            ensure!(v.len() <= cap, "{} returned {} bytes from a {}-byte slice", what, v.len(), cap);
+            ensure!(v.is_empty() || p == start, "{} returned a slice that does not start at the buffer start", what);
+            ensure_bytes!(&can.window_ref()[..v.len()], &v, "{}: buffer contents vs returned slice", what);
+            Ok(Ok(v))
+        }
+        Err(_) => Ok(Err(())),
+    }
+}
+
+/// `decompress` into a slice of exactly `cap` bytes inside a canary window.
+fn decode_slice(t: &Table, input: &[u8], cap: usize) -> Result<Result<Vec<u8>, ErrKind>, String> {
+    let mut can = Canary::new(cap);
+    let start = slice_start(&can);
+    let r = guard_s("decompress", || {
+        let win = can.window();
+        match t.lib.decompress(input, win) {
+            Ok(s) => Ok((s.as_ptr() as usize, s.to_vec())),
+            Err(DecompressionError::Capacity(_)) => Err(ErrKind::Capacity),
+            Err(DecompressionError::InvalidInput) => Err(ErrKind::Invalid),
+        }
+    })
+    .map_err(|e| format!("input [{}] capacity {}: {}", hex_short(input), cap, e))?;
+    ensure!(
+        can.intact(),
+        "decompress of [{}] into a {}-byte slice wrote outside the slice",
+        hex_short(input),
+        cap
+    );
+    match r {
+        Ok((p, v)) => {
+            ensure!(
+                v.len() <= cap,
+                "decompress of [{}] returned {} bytes from a {}-byte slice",
+                hex_short(input),
+                v.len(),
+                cap
+            );
+            ensure!(v.is_empty() || p == start, "decompress returned a slice that does not start at the buffer start");
+            ensure_bytes!(&can.window_ref()[..v.len()], &v, "decompress: buffer contents vs returned slice");
+            Ok(Ok(v))
+        }
+        Err(k) => Ok(Err(k)),
+    }
+}
+
+fn ref_decode(r: &RefHuffman, input: &[u8], cap: usize) -> Option<Vec<u8>> {
+    let mut buf = vec![0u8; cap];
+    r.decompress(input, &mut buf[..]).ok().map(|s| s.to_vec())
+}
+
+fn ref_compress(r: &RefHuffman, x: &[u8], room: usize) -> Option<Vec<u8>> {
+    // the reference reports "exactly full" as an error, so it always gets spare room
+    let mut buf = vec![0u8; room];
+    r.compress(x, &mut buf[..]).ok().map(|s| s.to_vec())
+}
+
+fn hex_short(b: &[u8]) -> String {
+    if b.len() <= 48 {
+        hex(b)
+    } else {
+        format!("{}..({} bytes)", hex(&b[..48]), b.len())
+    }
+}
+
+// ---------------------------------------------------------------------------
+// Compressor oracle
+
+#[derive(Debug, Default, Clone)]
+pub struct CompressInfo {
+    pub bit_len: usize,
+    pub compact_len: usize,
+    pub bug_len: usize,
+    pub extra_byte: bool,
+    pub capacity_refusals: u32,
+}
+
+/// Everything the property says about compressing `x` with table `t`.
+/// `all_caps`: try every slice capacity 0..=needed+2 instead of the boundary capacities.
+pub fn check_compress_with(t: &Table, x: &[u8], all_caps: bool) -> Result<CompressInfo, String> {
+    let bits = model_bit_len(t, x);
+    let model = model_encode(t, x);
+    // outputs into Vecs
+    let compact = t.lib.compress_into_vec(x);
+    let mut bugv: Vec<u8> = Vec::with_capacity(bits / 8 + 9);
+    let bug = t
+        .lib
+        .compress_bug(x, &mut bugv)
+        .map_err(|_| format!("compress_bug of {} bytes refused a Vec with {} spare bytes", x.len(), bits / 8 + 9))?
+        .to_vec();
+    ensure_bytes!(&bugv, &bug, "compress_bug: Vec contents vs returned slice");
+    // (2) predicted lengths are exact
+    ensure_eq!(t.lib.compressed_len(x), compact.len(), "compressed_len vs compress().len() for [{}]", hex_short(x));
+    ensure_eq!(
+        t.lib.compressed_len_bug(x),
+        bug.len(),
+        "compressed_len_bug vs compress_bug().len() for [{}]",
+        hex_short(x)
+    );
+    // doc/huffman.md: the two forms differ only by the reference's extra zero byte when the bit
+    // stream fills its last byte exactly
+    let extra = bits % 8 == 0;
+    ensure_bytes!(&compact, &model, "compress([{}]) vs the doc/huffman.md model", hex_short(x));
+    let mut expect_bug = model.clone();
+    if extra {
+        expect_bug.push(0);
+    }
+    ensure_bytes!(&bug, &expect_bug,
+        "compress_bug([{}]) vs the doc/huffman.md model (extra byte: {})",
+        hex_short(x),
+        extra
+    );
+    // (3) the reference-compatible form is byte-identical to the C++ output
+    if let Some(r) = &t.reference {
+        match ref_compress(r, x, bug.len() + 8) {
+            Some(rc) => ensure_bytes!(&bug, &rc, "compress_bug([{}]) vs the C++ reference", hex_short(x)),
+            None => return Err(format!("C++ reference refused to compress {} bytes into {} bytes", x.len(), bug.len() + 8)),
+        }
+    }
+    if t.builtin {
+        ensure_bytes!(&libtw2_huffman::compress(x), &compact, "huffman::compress vs TEEWORLDS.compress_into_vec");
+        let mut v = Vec::with_capacity(compact.len());
+        let n = v.capacity();
+        match libtw2_huffman::compress_into(x, &mut v) {
+            Ok(s) => ensure_bytes!(s, &compact, "huffman::compress_into"),
+            Err(_) => return Err(format!("huffman::compress_into refused a Vec with {} spare bytes, {} needed", n, compact.len())),
+        }
+    }
+    // (1) lossless, both forms, Vec output
+    for (name, stream) in [("compress", &compact), ("compress_bug", &bug)] {
+        match t.lib.decompress_into_vec(stream) {
+            Ok(d) => ensure_bytes!(&d, x, "decompress_into_vec({}(x)) != x, stream [{}]", name, hex_short(stream)),
+            Err(_) => {
+                return Err(format!(
+                    "decompress_into_vec rejects the output of {} for [{}] (stream [{}])",
+                    name,
+                    hex_short(x),
+                    hex_short(stream)
+                ))
+            }
+        }
+        if t.builtin {
+            match libtw2_huffman::decompress(stream) {
+                Ok(d) => ensure_bytes!(&d, x, "huffman::decompress({}(x)) != x", name),
+                Err(_) => return Err(format!("huffman::decompress rejects the output of {} for [{}]", name, hex_short(x))),
+            }
+        }
+        // Vec with pre-existing contents: appended, prefix untouched
+        let prefix = [0xE1u8, 0xE2, 0xE3];
+        let mut v = Vec::with_capacity(prefix.len() + x.len() + 5);
+        v.extend_from_slice(&prefix);
+        match t.lib.decompress(stream, &mut v) {
+            Ok(s) => ensure_bytes!(s, x, "decompress({}(x)) into a Vec: returned slice", name),
+            Err(e) => return Err(format!("decompress({}(x)) into a Vec with spare capacity >= len+5 failed: {:?}", name, e)),
+        }
+        ensure_bytes!(&v[..3], &prefix, "decompress into a Vec changed the existing contents");
+        ensure_bytes!(&v[3..], x, "decompress({}(x)) into a Vec: appended bytes", name);
+        // ArrayVec, the buffer type the net crate decompresses into
+        if x.len() <= 2048 {
+            let mut av: ArrayVec<[u8; 2048]> = ArrayVec::new();
+            match t.lib.decompress(stream, &mut av) {
+                Ok(s) => ensure_bytes!(s, x, "decompress({}(x)) into an ArrayVec", name),
+                Err(e) => return Err(format!("decompress({}(x)) into ArrayVec<2048> failed: {:?}", name, e)),
+            }
+            ensure_bytes!(&av, x, "ArrayVec contents after decompress({}(x))", name);
+        }
+    }
+    // fixed-capacity slices, decoding side
+    let mut refusals = 0;
+    let dec_caps: Vec<usize> = if all_caps {
+        (0..=x.len() + 2).collect()
+    } else {
+        let mut c = vec![0, x.len().saturating_sub(1), x.len(), x.len() + 1];
+        c.dedup();
+        c
+    };
+    for (name, stream) in [("compress", &compact), ("compress_bug", &bug)] {
+        for &cap in &dec_caps {
+            let r = decode_slice(t, stream, cap)?;
+            if cap >= x.len() {
+                match r {
+                    Ok(d) => ensure_bytes!(&d, x, "decompress({}(x)) into a {}-byte slice", name, cap),
+                    Err(k) => {
+                        return Err(format!(
+                            "decompress({}(x)) into a {}-byte slice failed ({:?}) although x has {} bytes",
+                            name,
+                            cap,
+                            k,
+                            x.len()
+                        ))
+                    }
+                }
+            } else {
+                ensure!(
+                    r.is_err(),
+                    "decompress({}(x)) into a {}-byte slice returned Ok although x has {} bytes",
+                    name,
+                    cap,
+                    x.len()
+                );
+                refusals += 1;
+            }
+        }
+    }
+    // fixed-capacity slices, encoding side: succeeds exactly when the predicted length fits
+    for (is_bug, out) in [(false, &compact), (true, &bug)] {
+        let need = out.len();
+        let caps: Vec<usize> = if all_caps {
+            (0..=need + 2).collect()
+        } else {
+            let mut c = vec![0, need.saturating_sub(1), need, need + 1];
+            c.dedup();
+            c
+        };
+        for cap in caps {
+            let r = compress_slice(t, x, is_bug, cap)?;
+            if cap >= need {
+                match r {
+                    Ok(v) => ensure_bytes!(&v, out, "compress (bug={}) into a {}-byte slice", is_bug, cap),
+                    Err(()) => {
+                        return Err(format!(
+                            "compress (bug={}) of [{}] refused a {}-byte slice although the predicted length is {}",
+                            is_bug,
+                            hex_short(x),
+                            cap,
+                            need
+                        ))
+                    }
+                }
+            } else {
+                ensure!(
+                    r.is_err(),
+                    "compress (bug={}) of [{}] into a {}-byte slice returned Ok although {} bytes are needed",
+                    is_bug,
+                    hex_short(x),
+                    cap,
+                    need
+                );
+                refusals += 1;
+            }
+        }
+    }
+    Ok(CompressInfo {
+        bit_len: bits,
+        compact_len: compact.len(),
+        bug_len: bug.len(),
+        extra_byte: extra,
+        capacity_refusals: refusals,
+    })
+}
+
+/// Compressor oracle for the built-in table (fuzz-target entry point).
+pub fn check_compress(x: &[u8]) -> Result<CompressInfo, String> {
+    check_compress_with(builtin(), x, x.len() <= 16)
+}
+
+// ---------------------------------------------------------------------------
+// Decoder oracle
+
+#[derive(Debug, Default, Clone)]
+pub struct DecodeInfo {
+    pub evaluations: u32,
+    pub ours_ok: u32,
+    pub err_capacity: u32,
+    pub err_invalid: u32,
+    pub ref_accepts: u32,
+    pub ref_rejects: u32,
+    /// zero-extended decoding reaches EOF within the capacity but the reference rejects
+    pub model_ok_ref_err: u32,
+    /// ours accepts, reference rejects (allowed: the property is one-directional)
+    pub ours_ok_ref_err: u32,
+    /// the stream reaches EOF only thanks to the zero extension
+    pub eof_in_zero_extension: u32,
+    /// ... and the reference accepts it too (EOF resolved with < 10 real bits left)
+    pub ref_accepts_zero_extension: u32,
+    /// the zero-extended stream never reaches EOF within 8 x input + slack bytes
+    pub runaway: bool,
+    /// same, for the first (untruncated) input of a case
+    pub runaway_full: bool,
+}
+
+impl DecodeInfo {
+    fn add(&mut self, o: &DecodeInfo) {
+        self.evaluations += o.evaluations;
+        self.ours_ok += o.ours_ok;
+        self.err_capacity += o.err_capacity;
+        self.err_invalid += o.err_invalid;
+        self.ref_accepts += o.ref_accepts;
+        self.ref_rejects += o.ref_rejects;
+        self.model_ok_ref_err += o.model_ok_ref_err;
+        self.ours_ok_ref_err += o.ours_ok_ref_err;
+        self.eof_in_zero_extension += o.eof_in_zero_extension;
+        self.ref_accepts_zero_extension += o.ref_accepts_zero_extension;
+        self.runaway |= o.runaway;
+    }
+}
+
+fn check_decode_one(t: &Table, input: &[u8], cap: usize, m: &ModelDecode, info: &mut DecodeInfo) -> Result<(), String> {
+    let ours = decode_slice(t, input, cap)?;
+    info.evaluations += 1;
+    // An Ok result must be the unique decoding of the zero-extended stream up to EOF.
+    match &ours {
+        Ok(out) => {
+            info.ours_ok += 1;
+            ensure!(
+                m.eof && m.bytes.len() <= cap && *out == m.bytes,
+                "decompress of [{}] with capacity {} returned Ok([{}]) but the bit stream {} (overflow/garbage must be an error)",
+                hex_short(input),
+                cap,
+                hex_short(out),
+                if m.eof {
+                    format!("decodes to the {} bytes [{}] before EOF", m.bytes.len(), hex_short(&m.bytes))
+                } else {
+                    format!("yields more than {} bytes without reaching EOF", m.bytes.len() - 1)
+                }
+            );
+            if m.bits_used > input.len() * 8 {
+                info.eof_in_zero_extension += 1;
+            }
+        }
+        Err(ErrKind::Capacity) => info.err_capacity += 1,
+        Err(ErrKind::Invalid) => info.err_invalid += 1,
+    }
+    if let Some(r) = &t.reference {
+        match ref_decode(r, input, cap) {
+            Some(rb) => {
+                info.ref_accepts += 1;
+                if m.eof && m.bits_used > input.len() * 8 {
+                    info.ref_accepts_zero_extension += 1;
+                }
+                match &ours {
+                    Ok(out) => ensure_bytes!(out, &rb,
+                        "decompress of [{}] with capacity {} differs from the C++ reference",
+                        hex_short(input),
+                        cap
+                    ),
+                    Err(k) => {
+                        return Err(format!(
+                            "decompress of [{}] with capacity {} fails ({:?}) but the C++ reference decodes it to the {} bytes [{}]",
+                            hex_short(input),
+                            cap,
+                            k,
+                            rb.len(),
+                            hex_short(&rb)
+                        ))
+                    }
+                }
+            }
+            None => {
+                info.ref_rejects += 1;
+                if ours.is_ok() {
+                    info.ours_ok_ref_err += 1;
+                }
+                if m.eof && m.bytes.len() <= cap {
+                    info.model_ok_ref_err += 1;
+                }
+            }
+        }
+    }
+    Ok(())
+}
+
+/// `decompress_into_vec` (capacity 8 x input).
+fn check_decode_vec_with(t: &Table, input: &[u8], m: &ModelDecode, info: &mut DecodeInfo) -> Result<(), String> {
+    let bound = input.len() * 8;
+    let r = guard_s("decompress_into_vec", || t.lib.decompress_into_vec(input).ok())
+        .map_err(|e| format!("input [{}]: {}", hex_short(input), e))?;
+    info.evaluations += 1;
+    if t.builtin {
+        let top = guard_s("huffman::decompress", || libtw2_huffman::decompress(input).ok())
+            .map_err(|e| format!("input [{}]: {}", hex_short(input), e))?;
+        ensure_eq!(top, r, "huffman::decompress vs TEEWORLDS.decompress_into_vec on [{}]", hex_short(input));
+    }
+    match &r {
+        Some(out) => {
+            info.ours_ok += 1;
+            ensure!(
+                out.len() <= bound,
+                "decompress_into_vec of {} input bytes returned {} bytes (> 8 x input)",
+                input.len(),
+                out.len()
+            );
+            ensure!(
+                m.eof && *out == m.bytes,
+                "decompress_into_vec of [{}] returned Ok([{}]) which is not the decoding of the bit stream up to EOF",
+                hex_short(input),
+                hex_short(out)
+            );
+        }
+        None => info.err_invalid += 1,
+    }
+    if let Some(rf) = &t.reference {
+        if let Some(rb) = ref_decode(rf, input, bound) {
+            info.ref_accepts += 1;
+            match &r {
+                Some(out) => ensure_bytes!(out, &rb, "decompress_into_vec of [{}] differs from the C++ reference", hex_short(input)),
+                None => {
+                    return Err(format!(
+                        "decompress_into_vec of [{}] fails but the C++ reference (capacity 8 x input = {}) decodes it to {} bytes",
+                        hex_short(input),
+                        bound,
+                        rb.len()
+                    ))
+                }
+            }
+        } else {
+            info.ref_rejects += 1;
+        }
+    }
+    Ok(())
+}
+
+/// Decoder oracle for one input against a list of capacities (plus the Vec form).
+/// `extra_cap`: an additional caller-chosen capacity; `all_caps`: every capacity 0..=n+2 where n
+/// is the number of bytes before EOF.
+pub fn check_decode_with(t: &Table, input: &[u8], extra_cap: Option<usize>, all_caps: bool) -> Result<DecodeInfo, String> {
+    let bound = input.len() * 8;
+    let limit = bound + 64 + extra_cap.unwrap_or(0);
+    let m = model_decode(t, input, limit);
+    let mut caps: Vec<usize> = vec![0, bound];
+    if let Some(c) = extra_cap {
+        caps.push(c);
+    }
+    if m.eof {
+        let n = m.bytes.len();
+        if all_caps && n <= 40 {
+            caps.extend(0..=n + 2);
+        } else {
+            caps.extend([n.saturating_sub(1), n, n + 1]);
+        }
+    } else {
+        caps.extend([1, bound + 1]);
+    }
+    caps.sort();
+    caps.dedup();
+    let mut info = DecodeInfo::default();
+    info.runaway = !m.eof;
+    for cap in caps {
+        check_decode_one(t, input, cap, &m, &mut info)?;
+    }
+    check_decode_vec_with(t, input, &m, &mut info)?;
+    Ok(info)
+}
+
+/// Decoder oracle for the built-in table: one input, one capacity (fuzz-target entry point).
+pub fn check_decode(input: &[u8], capacity: usize) -> Result<DecodeInfo, String> {
+    let t = builtin();
+    let m = model_decode(t, input, input.len() * 8 + capacity);
+    let mut info = DecodeInfo::default();
+    info.runaway = !m.eof;
+    check_decode_one(t, input, capacity, &m, &mut info)?;
+    Ok(info)
+}
+
+/// Decoder oracle for the built-in table: `decompress` into a fresh Vec (fuzz-target entry point).
+pub fn check_decode_vec(input: &[u8]) -> Result<DecodeInfo, String> {
+    let t = builtin();
+    let m = model_decode(t, input, input.len() * 8);
+    let mut info = DecodeInfo::default();
+    info.runaway = !m.eof;
+    check_decode_vec_with(t, input, &m, &mut info)?;
+    Ok(info)
+}
+
+/// Is `stream` exactly what the compressor emits (either form) for the data it decodes to?
+fn is_verbatim(t: &Table, stream: &[u8]) -> bool {
+    let m = model_decode(t, stream, stream.len() * 8 + 1);
+    if !m.eof {
+        return false;
+    }
+    let mut e = model_encode(t, &m.bytes);
+    if e == stream {
+        return true;
+    }
+    e.push(0);
+    e == stream && model_bit_len(t, &m.bytes) % 8 == 0
+}
+
+// ---------------------------------------------------------------------------
+// Generated cases
+
+#[derive(Clone, Debug, Hash, Serialize, Deserialize)]
+pub struct CompCase {
+    pub data: Vec<u8>,
+    /// append short-code bytes until the bit stream fills its last byte exactly
+    pub align: bool,
+}
+
+/// Stream mutation applied to a valid stream (or to raw bytes when `form == 2`).
+#[derive(Clone, Debug, Hash, Serialize, Deserialize)]
+pub struct DecCase {
+    /// plain data (form 0/1) or the raw input bytes (form 2)
+    pub data: Vec<u8>,
+    /// 0: compact stream, 1: reference-compatible stream, 2: `data` is the input itself
+    pub form: u8,
+    /// bit positions to flip (mapped monotonically onto the stream)
+    pub flips: Vec<u16>,
+    /// truncate the stream here (mapped monotonically onto 0..=len)
+    pub cut: Option<u16>,
+    /// arbitrary trailing bytes
+    pub ext: Vec<u8>,
+    /// an additional absolute output capacity
+    pub cap: u16,
+}
+
+#[derive(Clone, Debug, Hash, Serialize, Deserialize)]
+pub struct TableCase {
+    pub kind: String,
+    pub freqs: Vec<u32>,
+    pub dec: DecCase,
+}
+
+/// Appends bytes (a pure function of the table and the data) so that the number of code bits
+/// including EOF becomes a multiple of 8, if that is reachable with <= 7 appended bytes.
+pub fn align_to_byte(t: &Table, data: &[u8]) -> Vec<u8> {
+    let mut out = data.to_vec();
+    let Some(sym) = (0..256usize).filter(|&s| t.codes[s].len % 2 == 1).min_by_key(|&s| t.codes[s].len) else {
+        return out;
+    };
+    for _ in 0..8 {
+        if model_bit_len(t, &out) % 8 == 0 {
+            break;
+        }
+        out.push(sym as u8);
+    }
+    out
+}
+
+fn symbols_by<F: Fn(Code) -> bool>(t: &Table, f: F) -> Vec<u8> {
+    let v: Vec<u8> = (0..256usize).filter(|&s| f(t.codes[s])).map(|s| s as u8).collect();
+    if v.is_empty() {
+        vec![0]
+    } else {
+        v
+    }
+}
+
+fn data_strategy(max: usize) -> BoxedStrategy<Vec<u8>> {
+    let t = builtin();
+    let longest = t.codes[..256].iter().map(|c| c.len).max().unwrap();
+    let long_syms = symbols_by(t, |c| c.len + 2 >= longest);
+    let short_syms = symbols_by(t, |c| c.len <= 7);
+    let text: Vec<u8> = (b' '..=b'~').collect();
+    prop_oneof![
+        5 => proptest::collection::vec(any::<u8>(), 3..=40),
+        1 => proptest::collection::vec(any::<u8>(), 0..=2),
+        2 => proptest::collection::vec(any::<u8>(), 0..=max),
+        2 => (any::<u8>(), 0..=max).prop_map(|(b, n)| vec![b; n]),
+        1 => (0..=max).prop_map(|n| vec![0u8; n]),
+        1 => (any::<u8>(), any::<u8>(), 0..=max / 2).prop_map(|(a, b, n)| (0..n).flat_map(|_| [a, b]).collect()),
+        3 => proptest::collection::vec(proptest::sample::select(short_syms), 0..=max.min(1200)),
+        2 => proptest::collection::vec(proptest::sample::select(long_syms), 0..=max.min(400)),
+        1 => proptest::collection::vec(proptest::sample::select(text), 0..=max.min(500)),
+        2 => proptest::collection::vec((any::<u8>(), 1usize..120), 0..12)
+            .prop_map(|runs| runs.into_iter().flat_map(|(b, n)| std::iter::repeat(b).take(n)).collect()),
+    ]
+    .boxed()
+}
+
+fn comp_strategy() -> impl Strategy<Value = CompCase> {
+    (data_strategy(8192), proptest::bool::weighted(0.3)).prop_map(|(data, align)| CompCase { data, align })
+}
+
+fn dec_strategy(max: usize, garbage_max: usize) -> impl Strategy<Value = DecCase> {
+    let valid = (
+        data_strategy(max),
+        0u8..2,
+        prop_oneof![
+            3 => Just(Vec::new()),
+            2 => proptest::collection::vec(any::<u16>(), 1..=1),
+            1 => proptest::collection::vec(any::<u16>(), 2..=4),
+        ],
+        proptest::option::weighted(0.35, any::<u16>()),
+        prop_oneof![2 => Just(Vec::new()), 1 => proptest::collection::vec(any::<u8>(), 1..=4)],
+        cap_strategy(),
+    )
+        .prop_map(|(data, form, flips, cut, ext, cap)| DecCase {
+            data,
+            form,
+            flips,
+            cut,
+            ext,
+            cap,
+        });
+    let garbage = (
+        prop_oneof![
+            3 => proptest::collection::vec(any::<u8>(), 0..=12),
+            2 => proptest::collection::vec(any::<u8>(), 0..=garbage_max),
+            1 => (any::<u8>(), 0..=garbage_max).prop_map(|(b, n)| vec![b; n]),
+        ],
+        cap_strategy(),
+    )
+        .prop_map(|(data, cap)| DecCase {
+            data,
+            form: 2,
+            flips: Vec::new(),
+            cut: None,
+            ext: Vec::new(),
+            cap,
+        });
+    prop_oneof![3 => valid, 1 => garbage]
+}
+
+fn cap_strategy() -> BoxedStrategy<u16> {
+    prop_oneof![2 => 0u16..64, 1 => 0u16..4096, 1 => any::<u16>()].boxed()
+}
+
+/// The decoder input described by a case.
+pub fn dec_input(t: &Table, c: &DecCase) -> Vec<u8> {
+    let mut s = match c.form {
+        0 => model_encode(t, &c.data),
+        1 => {
+            let mut e = model_encode(t, &c.data);
+            if model_bit_len(t, &c.data) % 8 == 0 {
+                e.push(0);
+            }
+            e
+        }
+        _ => c.data.clone(),
+    };
+    if !s.is_empty() {
+        for &f in &c.flips {
+            let bit = pick(f, s.len() * 8);
+            s[bit >> 3] ^= 1 << (bit & 7);
+        }
+    }
+    if let Some(cut) = c.cut {
+        let at = pick(cut, s.len() + 1);
+        s.truncate(at);
+    }
+    s.extend_from_slice(&c.ext);
+    s
+}
+
+fn check_comp_case(c: &CompCase) -> PResult {
+    let t = builtin();
+    let data = if c.align { align_to_byte(t, &c.data) } else { c.data.clone() };
+    let info = check_compress_with(t, &data, data.len() <= 24)?;
+    let longest = t.max_len();
+    Ok(Outcome::nt(data.len() >= 3)
+        .class_if(info.extra_byte, "bitlen_multiple_of_8_extra_byte")
+        .class_if(data.len() > 1024, "over_1KiB")
+        .class_if(data.len() > 4096, "over_4KiB")
+        .class_if(info.compact_len > data.len(), "expands")
+        .class_if(info.compact_len * 4 < data.len(), "ratio_better_than_4")
+        .class_if(data.iter().any(|&b| t.codes[b as usize].len + 1 >= longest), "has_longest_codes"))
+}
+
+fn check_dec_case_with(t: &Table, c: &DecCase) -> Result<(DecodeInfo, bool), String> {
+    let input = dec_input(t, c);
+    let mut info = check_decode_with(t, &input, Some(c.cap as usize), input.len() <= 64)?;
+    info.runaway_full = info.runaway;
+    // every truncation of a short stream
+    if input.len() <= 40 {
+        for cut in 0..input.len() {
+            let i = check_decode_with(t, &input[..cut], None, cut <= 12)?;
+            info.add(&i);
+        }
+    }
+    Ok((info, !is_verbatim(t, &input)))
+}
+
+fn dec_outcome(c: &DecCase, info: &DecodeInfo, nontrivial: bool) -> Outcome {
+    Outcome::nt(nontrivial)
+        .class_if(info.ref_accepts > 0, "ref_accepts")
+        .class_if(info.ref_rejects > 0, "ref_rejects")
+        .class_if(info.err_capacity > 0, "err_capacity")
+        .class_if(info.err_invalid > 0, "err_invalid_or_vec_err")
+        .class_if(info.ours_ok > 0, "ours_ok")
+        .class_if(info.ours_ok_ref_err > 0, "ours_ok_ref_err")
+        .class_if(info.model_ok_ref_err > 0, "zero_ext_ok_ref_err")
+        .class_if(info.eof_in_zero_extension > 0, "eof_in_zero_extension")
+        .class_if(info.ref_accepts_zero_extension > 0, "ref_accepts_zero_extension")
+        .class_if(nontrivial && !info.runaway_full, "mutated_and_full_input_reaches_eof")
+        .class_if(info.runaway, "runaway_no_eof")
+        .class_if(c.form == 2, "garbage")
+        .class_if(c.form != 2 && !c.flips.is_empty(), "bit_flips")
+        .class_if(c.form != 2 && c.cut.is_some(), "truncated")
+        .class_if(c.form != 2 && !c.ext.is_empty(), "extended")
+        .class_if(c.form != 2 && c.flips.is_empty() && c.cut.is_none() && c.ext.is_empty(), "verbatim_stream")
+}
+
+fn check_dec_case(c: &DecCase) -> PResult {
+    let (info, nt) = check_dec_case_with(builtin(), c)?;
+    Ok(dec_outcome(c, &info, nt))
+}
+
+// --- generated tables
+
+fn freqs_strategy() -> BoxedStrategy<(String, Vec<u32>)> {
+    let perm = Just((0..256usize).collect::<Vec<usize>>()).prop_shuffle();
+    let k = |s: &str| s.to_string();
+    prop_oneof![
+        1 => (1u32..=100_000).prop_map(move |v| (k("uniform"), vec![v; 256])),
+        2 => proptest::collection::vec(1u32..=1000, 256).prop_map(move |v| (k("random_small"), v)),
+        2 => (perm.clone(), 1u32..=60_000, 1u32..=3).prop_map(move |(p, scale, s)| {
+            let mut f = vec![0u32; 256];
+            for (rank, &sym) in p.iter().enumerate() {
+                let d = (rank as u64 + 1).pow(s).min(u32::MAX as u64) as u32;
+                f[sym] = (scale / d).max(1);
+            }
+            (k("zipf"), f)
+        }),
+        2 => (proptest::collection::vec(1u32..=64, 1..=4), proptest::collection::vec(any::<u16>(), 256)).prop_map(
+            move |(levels, idx)| (k("ties"), idx.iter().map(|&i| levels[pick(i, levels.len())]).collect())
+        ),
+        2 => (proptest::collection::vec(1u32..=300, 256), proptest::collection::vec(any::<u16>(), 0..=22)).prop_map(
+            move |(mut f, zeros)| {
+                for z in zeros {
+                    f[pick(z, 256)] = 0;
+                }
+                (k("zeros"), f)
+            }
+        ),
+        2 => (perm.clone(), 0usize..=18, 1u32..=3).prop_map(move |(p, n, base)| {
+            // a balanced subtree of weight ~256*base with a chain of n doubling weights above it
+            let mut f = vec![base; 256];
+            let mut w = 512u64 * base as u64;
+            for &sym in p.iter().take(n) {
+                f[sym] = w.min(1 << 30) as u32;
+                w *= 2;
+            }
+            (k("deep_chain"), f)
+        }),
+        1 => (proptest::collection::vec(1u32..=1000, 256), proptest::collection::vec((any::<u16>(), any::<u32>()), 1..=6)).prop_map(
+            move |(mut f, big)| {
+                for (i, v) in big {
+                    f[pick(i, 256)] = v;
+                }
+                (k("huge_saturating"), f)
+            }
+        ),
+        1 => (proptest::collection::vec(any::<u32>(), 256), 7u32..=20).prop_map(move |(v, sh)| {
+            // sums around 2^31: on both sides of the reference's signed-int domain, rarely saturating
+            // (unshifted u32 vectors always saturate into a chain deeper than 24)
+            (k("random_wide"), v.into_iter().map(|f| f >> sh).collect())
+        }),
+        1 => Just((k("builtin_frequencies"), builtin_frequencies().to_vec())),
+    ]
+    .boxed()
+}
+
+fn table_strategy() -> impl Strategy<Value = TableCase> {
+    (freqs_strategy(), dec_strategy(300, 200)).prop_map(|((kind, freqs), dec)| TableCase { kind, freqs, dec })
+}
+
+/// Can the C++ reference build its tree without signed overflow (`int m_Frequency`)?
+fn reference_domain(freqs: &[u32]) -> bool {
+    freqs.iter().map(|&f| f as u64).sum::<u64>() + 1 <= i32::MAX as u64
+}
+
+#[derive(Debug, Default, Clone)]
+pub struct TableInfo {
+    pub depth: u32,
+    pub discarded: bool,
+    pub ref_compared: bool,
+    pub dec: DecodeInfo,
+    pub nontrivial_stream: bool,
+}
+
+/// Table built from an arbitrary frequency vector: code validity, compressor oracle on the
+/// case's data and on a string holding every byte value, decoder oracle on the mutated stream.
+pub fn check_table(freqs: &[u32], dec: &DecCase) -> Result<TableInfo, String> {
+    ensure_eq!(freqs.len(), 256, "frequency vector length");
+    let lengths = model_code_lengths(freqs);
+    let depth = *lengths.iter().max().unwrap();
+    if depth > MAX_DEPTH {
+        // outside the library's representation limit (24-bit codes): not generated
+        return Ok(TableInfo {
+            depth,
+            discarded: true,
+            ..TableInfo::default()
+        });
+    }
+    let lib = guard_s("Huffman::from_frequencies", || Huffman::from_frequencies(freqs))
+        .map_err(|e| format!("{} (model tree depth {})", e, depth))?;
+    let in_ref_domain = reference_domain(freqs);
+    let reference = if in_ref_domain { Some(RefHuffman::from_frequencies(freqs)) } else { None };
+    let t = Table::new(lib, reference, false)?;
+    if in_ref_domain {
+        // within the reference's domain the merge procedure is fully determined
+        let got: Vec<u32> = t.codes.iter().map(|c| c.len).collect();
+        ensure_eq!(got, lengths, "code lengths vs the merge-two-rarest model");
+    } else {
+        ensure!(t.max_len() <= MAX_DEPTH, "code longer than 24 bits");
+    }
+    let all: Vec<u8> = (0..=255u8).collect();
+    check_compress_with(&t, &all, false)?;
+    // the longest code repeated: worst case for the output size (3 bytes per symbol at depth 24)
+    let deepest = (0..256usize).max_by_key(|&s| t.codes[s].len).unwrap() as u8;
+    check_compress_with(&t, &vec![deepest; 33], false)?;
+    if dec.form != 2 {
+        check_compress_with(&t, &dec.data, dec.data.len() <= 12)?;
+        let aligned = align_to_byte(&t, &dec.data);
+        if aligned.len() != dec.data.len() {
+            check_compress_with(&t, &aligned, false)?;
+        }
+    }
+    let (info, nt) = check_dec_case_with(&t, dec)?;
+    Ok(TableInfo {
+        depth,
+        discarded: false,
+        ref_compared: in_ref_domain,
+        dec: info,
+        nontrivial_stream: nt,
+    })
+}
+
+fn check_table_case(c: &TableCase) -> PResult {
+    let info = check_table(&c.freqs, &c.dec)?;
+    let o = if info.discarded {
+        Outcome::trivial().class("discarded_depth_over_24")
+    } else {
+        dec_outcome(&c.dec, &info.dec, true)
+            .class_if(info.ref_compared, "ref_compared")
+            .class_if(!info.ref_compared, "outside_ref_domain")
+            .class_if(info.depth >= 16, "depth_16_to_24")
+            .class_if(info.depth == MAX_DEPTH, "depth_24")
+    };
+    Ok(match c.kind.as_str() {
+        "uniform" => o.class("kind_uniform"),
+        "random_small" => o.class("kind_random_small"),
+        "zipf" => o.class("kind_zipf"),
+        "ties" => o.class("kind_ties"),
+        "zeros" => o.class("kind_zeros"),
+        "deep_chain" => o.class("kind_deep_chain"),
+        "huge_saturating" => o.class("kind_huge_saturating"),
+        "random_wide" => o.class("kind_random_wide"),
+        "builtin_frequencies" => o.class("kind_builtin_frequencies"),
+        _ => o,
+    })
+}
+
+// ---------------------------------------------------------------------------
+// Enumerations
+
+fn short_string(idx: u64) -> Vec<u8> {
+    if idx == 0 {
+        vec![]
+    } else if idx < 257 {
+        vec![(idx - 1) as u8]
+    } else if idx < 257 + 65536 {
+        let i = idx - 257;
+        vec![(i >> 8) as u8, i as u8]
+    } else {
+        let i = idx - 257 - 65536;
+        vec![(i >> 16) as u8, (i >> 8) as u8, i as u8]
+    }
+}
+
+fn check_builtin_symbol(sym: u64) -> Result<bool, String> {
+    let sym = sym as usize;
+    let t = builtin();
+    let doc = doc_codes();
+    ensure_eq!(t.codes[sym], doc[sym], "instances::TEEWORLDS code of symbol {} vs doc/huffman.md appendix", sym);
+    static BUILT: OnceLock<Vec<Code>> = OnceLock::new();
+    let built = BUILT.get_or_init(|| codes_of(&Huffman::from_frequencies(builtin_frequencies())).unwrap_or_default());
+    ensure_eq!(
+        built.get(sym).copied(),
+        Some(doc[sym]),
+        "Huffman::from_frequencies(data/frequencies) code of symbol {} vs doc/huffman.md appendix",
+        sym
+    );
+    let lengths = model_code_lengths(builtin_frequencies());
+    ensure_eq!(lengths[sym], doc[sym].len, "merge model code length of symbol {}", sym);
+    Ok(true)
+}
+
+pub fn run(ctx: &Ctx) {
+    ctx.set_rule(
+        "compressor: every byte string of length 0..=2 (non-trivial = non-empty) and proptest-generated strings up to 8 KiB \
+         (random, runs, alternations, short-code/longest-code/text alphabets, optionally padded so the bit stream fills its \
+         last byte; non-trivial = length >= 3, distinct by case hash); decoder: every byte string of length 0..=2 (quick) / \
+         0..=3 (thorough) against capacities 0..=8*len+1 (length 3: {0, n-1, n, n+1, 24}), and generated streams = valid stream (either form) with bit flips, \
+         truncation, 1..4 trailing bytes, or raw garbage up to 2000 bytes, each against capacities {0, n-1, n, n+1, 8*len, \
+         a generated one} (every capacity 0..=n+2 and every truncation for short streams); non-trivial = the input is not \
+         the verbatim compressor output for what it decodes to; tables: the built-in one and tables built from generated \
+         frequency vectors whose merge-model depth is <= 24 (deeper ones are discarded and counted)",
+    );
+    ctx.assume("model = doc/huffman.md (appendix code table, zero padding, LSB-first bytes, decoder zero-extends the stream)");
+    ctx.assume("C++ reference (huffman/reference) initialised from huffman/data/frequencies is the original Teeworlds implementation; it is given spare output room when compressing because it reports 'exactly full' as an error");
+    ctx.assume("the decoder's loop cannot be instrumented with fuel (no callback): termination is observed only through the engine's wall-clock watchdog (exit 2), every call returning Ok/Err for every generated capacity is what is checked");
+    ctx.assume("generated tables are compared with the C++ reference only when the frequency sum fits its signed int; trees deeper than 24 are outside the library's representation limit and are not built");
+
+    ctx.exhaustive("builtin_table_vs_doc", NUM_SYMBOLS as u64, check_builtin_symbol, |i| json!(i));
+
+    ctx.probe("doc_example_stream", || {
+        // doc/huffman.md example and the repo's single decoding example
+        let t = builtin();
+        let x = [0x00, 0x01, 0x00, 0x02, 0x00, 0x80, 0x00];
+        ensure_eq!(hex(&t.lib.compress_into_vec(&x)), "b1082a6e00".to_string(), "doc/huffman.md example");
+        let d = t.lib.decompress_into_vec(&[0x57, 0xdc]).map_err(|_| "decompress(57 dc) failed".to_string())?;
+        ensure_eq!(hex(&d), "000000".to_string(), "decompress(57 dc)");
+        Ok(())
+    });
+
+    ctx.exhaustive(
+        "compress_len0_2",
+        1 + 256 + 65536,
+        |i| {
+            let x = short_string(i);
+            check_compress_with(builtin(), &x, true).map(|_| !x.is_empty())
+        },
+        |i| json!(hex(&short_string(i))),
+    );
+
+    if !ctx.quick() {
+        ctx.exhaustive(
+            "compress_len3",
+            1 << 24,
+            |i| check_compress_with(builtin(), &short_string(257 + 65536 + i), false).map(|_| true),
+            |i| json!(hex(&short_string(257 + 65536 + i))),
+        );
+    }
+
+    let decode_total: u64 = if ctx.quick() { 1 + 256 + 65536 } else { 1 + 256 + 65536 + (1 << 24) };
+    let ours_ok_ref_err = std::sync::atomic::AtomicU64::new(0);
+    let zero_ext_ok_ref_err = std::sync::atomic::AtomicU64::new(0);
+    ctx.exhaustive(
+        "decode_short_exhaustive",
+        decode_total,
+        |i| {
+            let s = short_string(i);
+            let t = builtin();
+            let m = model_decode(t, &s, s.len() * 8 + 2);
+            let mut info = DecodeInfo::default();
+            if s.len() <= 2 {
+                for cap in 0..=s.len() * 8 + 1 {
+                    check_decode_one(t, &s, cap, &m, &mut info)?;
+                }
+            } else {
+                let n = m.bytes.len();
+                let mut caps = vec![0, n.saturating_sub(1), n, n + 1, s.len() * 8];
+                caps.sort();
+                caps.dedup();
+                for cap in caps {
+                    check_decode_one(t, &s, cap, &m, &mut info)?;
+                }
+            }
+            check_decode_vec_with(t, &s, &m, &mut info)?;
+            if info.ours_ok_ref_err > 0 {
+                ours_ok_ref_err.fetch_add(1, std::sync::atomic::Ordering::Relaxed);
+            }
+            if info.model_ok_ref_err > 0 {
+                zero_ext_ok_ref_err.fetch_add(1, std::sync::atomic::Ordering::Relaxed);
+            }
+            Ok(!is_verbatim(t, &s))
+        },
+        |i| json!(hex(&short_string(i))),
+    );
+    ctx.extra(
+        "decode_short_exhaustive_inputs_where_ours_accepts_but_reference_rejects",
+        json!(ours_ok_ref_err.into_inner()),
+    );
+    ctx.extra(
+        "decode_short_exhaustive_inputs_where_zero_extension_reaches_eof_but_reference_rejects",
+        json!(zero_ext_ok_ref_err.into_inner()),
+    );
+
+    ctx.prop("compress_builtin", ctx.n(50_000, 1_200_000), comp_strategy, check_comp_case);
+    ctx.prop("decode_builtin", ctx.n(100_000, 2_400_000), || dec_strategy(2000, 2000), check_dec_case);
+    ctx.prop("generated_tables", ctx.n(6_000, 160_000), table_strategy, check_table_case);
 }
